@@ -1,5 +1,6 @@
 //! Verification harness for vrl: binds the TLA+ specification in /verif/spec to the real code.
 mod algebra;
+mod calls;
 mod core;
 mod enc;
 mod render;
@@ -212,6 +213,24 @@ fn main() {
         "values" => cmd_map(&args, |c| vec![algebra::value_case(c)]),
         "kinds" => cmd_map(&args, |c| vec![algebra::kind_case(c)]),
         "paths" => cmd_map(&args, |c| vec![algebra::path_case(c)]),
+        "sigtable" => {
+            std::fs::write(args.req("out"), calls::sigtable().to_string()).expect("write sigtable");
+        }
+        "callworker" => calls::worker(),
+        "examples" => {
+            let mut w = std::io::BufWriter::new(File::create(args.req("out")).expect("create"));
+            for c in core::example_cases() {
+                writeln!(w, "{c}").unwrap();
+            }
+        }
+        "calls" => {
+            let cases = read_ndjson(args.req("cases"));
+            let deadline = std::time::Duration::from_millis(args.num("deadline-ms", 10000) as u64);
+            let mem_kb = args.num("mem-kb", 6_000_000) as u64;
+            sharded(cases, args.num("shards", 1), args.req("out"), |_, part, w| {
+                calls::run_shard(part, w, deadline, mem_kb);
+            });
+        }
         "ops" => {
             let cases = read_ndjson(args.req("cases"));
             std::panic::set_hook(Box::new(|_| {}));
